@@ -493,6 +493,43 @@ def rule_sib_t2(ctx) -> None:
     ctx.check(bool(stops), "C09.SIB-T2", f"{mg.qual}/stops-at-k", mg.loc(), "the merge returns as soon as k hits are collected", "the cross-shard merge does not stop at k")
 
 
+def rule_shard_decomposable(ctx) -> None:
+    """sharding is sound only for work that decomposes over disjoint parts of the memory: per-episode filters, and rank cuts
+    that the cross-shard merge applies again to the union.  Every truncation the per-shard search performs by a configured
+    bound must therefore be re-applied by the merge.  The cluster tier cuts the CLUSTER ranking to clusters_top_m inside the
+    search - per shard that is the top-M of each shard (with shard-local centroids), and the merge only re-cuts to k: the
+    parallel path returns members of clusters the sequential walk excludes."""
+    idx = ctx.func("clematis.memory.index:InMemoryIndex._search_with_episodes")
+    rd = ctx.rd(idx)
+    cfg = ctx.cfg(idx)
+    bounds: Dict[str, ast.AST] = {}
+    for x in walk_no_defs(idx.node):
+        if isinstance(x, ast.Subscript) and isinstance(x.slice, ast.Slice) and x.slice.upper is not None and isinstance(x.ctx, ast.Load):
+            at = (cfg.node_containing(x) or [None])[0]
+            if at is None:
+                continue
+            inl = rd.inline(x.slice.upper, at)
+            keys = {const_str(c.args[0]) for c in ast.walk(inl) if isinstance(c, ast.Call) and call_tail(c) == "get" and c.args and const_str(c.args[0])}
+            names = {y.id for y in ast.walk(inl) if isinstance(y, ast.Name) and y.id in idx.params and y.id not in ("hints", "self")}
+            for b in keys | names:
+                bounds.setdefault(b, x)
+    # the per-episode ranking helper cuts to k as well
+    for x in walk_no_defs(idx.node):
+        if isinstance(x, ast.Call) and call_tail(x) == "_rank_by_cosine" and len(x.args) >= 3 and isinstance(x.args[2], ast.Name) and x.args[2].id in idx.params:
+            bounds.setdefault(x.args[2].id, x)
+    ctx.floor("C09.SIB-T2", "configured truncations inside the per-shard search", len(bounds), 2)
+    mg = ctx.func(SHARD)
+    merge_bounds = {y.id for x in walk_no_defs(mg.node) if isinstance(x, ast.Compare) for y in ast.walk(x) if isinstance(y, ast.Name) and y.id in mg.params}
+    # correspondence of names across the fan-out: search k <- k_retrieval; hints keys keep their name
+    same = {"k": {"k", "k_retrieval"}}
+    for b, site in sorted(bounds.items()):
+        ok = bool(same.get(b, {b}) & merge_bounds)
+        ctx.check(ok, "C09.SIB-T2", f"{idx.qual}/per-shard-cut-reapplied-by-merge:{b}", idx.loc(site),
+                  f"the cut to `{b}` inside the per-shard search is applied again by the cross-shard merge",
+                  f"the per-shard search cuts by `{b}` (`{src(site)[:50]}`) but the cross-shard merge knows nothing of it (it re-cuts by {sorted(merge_bounds)} only): each shard keeps its own top "
+                  f"{b} - with shard-local centroids - and the union is returned, so the parallel path yields members of clusters that the sequential walk excludes")
+
+
 def rule_share(ctx) -> None:
     inner = ctx.func(T1 + ":t1_propagate._t1_one_graph")
     ef = Effects(ctx, depth=4, hints={"store": "clematis.graph.store:InMemoryGraphStore"})
@@ -567,4 +604,5 @@ def run(ctx) -> None:
     rule_sib_t1(ctx)
     rule_sib_t2(ctx)
     rule_tier_independent(ctx)
+    rule_shard_decomposable(ctx)
     rule_share(ctx)
